@@ -85,12 +85,26 @@ func verifC04CoreExclude(srv string) string {
 	if res.StatusCode != http.StatusOK {
 		return fmt.Sprintf("err patch status %d", res.StatusCode)
 	}
-	after := 0
-	for end := time.Now().Add(3 * time.Second); time.Now().Before(end); {
-		if after = get(); after == http.StatusUnauthorized {
-			break
+	// Wait for the reload to complete before touching <srv> again: the API server is closed first and re-created
+	// last, so "the API answers 401" means every resource is in place again.  (Probing the metrics server DURING the
+	// reload crashes the process on the unchanged code: pathManager is nil for a moment and onMetrics calls it
+	// unguarded — a finding of its own, see notes/C04.md — and is not what this op is about.)
+	getAPI := func() int {
+		res2, err2 := hc.Get("http://" + addr["api"] + "/v3/paths/list")
+		if err2 != nil {
+			return 0
 		}
+		res2.Body.Close()
+		return res2.StatusCode
+	}
+	for end := time.Now().Add(3 * time.Second); time.Now().Before(end) && getAPI() != http.StatusUnauthorized; {
 		time.Sleep(5 * time.Millisecond)
+	}
+	after := 0
+	for k := 0; k < 50 && after == 0; k++ {
+		if after = get(); after == 0 {
+			time.Sleep(10 * time.Millisecond)
+		}
 	}
 	return fmt.Sprintf("before=%d after=%d", before, after)
 }
